@@ -84,6 +84,48 @@ func lossyRun(w *World, stalled bool) {
 			}
 		})
 	}
+	var late []*subscriber
+	var leave context.CancelFunc
+	if !stalled && t.Flag(1, 3) {
+		// subscribers come and go while the writers are at work: one leaves (its listener stays in the bus's list until a
+		// later Send notices), others arrive - in the middle of a Send as well - and are owed everything from their seed on
+		ctx, cancel := context.WithCancel(context.Background())
+		leave = cancel
+		lv := &subscriber{name: "leaver", cfg: subCfg{Backpressure: t.Flag(1, 2)}, ctx: ctx, cancel: cancel}
+		lv.open(r)
+		stay := t.Choose(3)
+		w.Go(lv.name, true, func(task *Task) {
+			for i := 0; i < stay; i++ {
+				task.Yield("recv")
+				if !lv.recv(w) {
+					return
+				}
+			}
+			task.Yield("leave")
+			cancel()
+			for lv.recv(w) {
+			}
+		})
+		for i, n := 0, 1+t.Choose(2); i < n; i++ {
+			ctx, cancel := context.WithCancel(context.Background())
+			ls := &subscriber{name: fmt.Sprintf("late%d", i), cfg: subCfg{Backpressure: t.Flag(1, 3)}, ctx: ctx, cancel: cancel}
+			wait := t.Choose(10)
+			late = append(late, ls)
+			w.Go(ls.name, true, func(task *Task) {
+				for k := 0; k < wait; k++ {
+					task.Yield("later")
+				}
+				ls.open(r)
+				for {
+					task.Yield("recv")
+					if !ls.recv(w) {
+						return
+					}
+				}
+			})
+		}
+		w.Fault("come-and-go")
+	}
 	t0 := time.Now()
 	for _, wr := range writers {
 		wr := wr
@@ -133,11 +175,19 @@ func lossyRun(w *World, stalled bool) {
 			for _, s := range subs {
 				lossyCheck(w, r, m0, coll, s)
 			}
+			for _, s := range late {
+				if s.opened {
+					lossyCheck(w, r, m0, coll, s)
+				}
+			}
 		})
 		w.Run()
 	}
-	for _, s := range subs {
+	for _, s := range append(subs, late...) {
 		s.cancel()
+	}
+	if leave != nil {
+		leave()
 	}
 	w.Run()
 }
